@@ -1,5 +1,6 @@
 import O4.Lemmas.Obfs4Chunk
 import O4.Lemmas.Obfs4Tx
+import O4.Lemmas.Obfs4EndToEnd
 import O4.Generated.Facts.Obfs4
 /-!
 # C01 — obfs4 delivers the exact byte stream under any segmentation; every byte written becomes
@@ -392,6 +393,253 @@ theorem framing_state_private :
     "receiveDecodedBuffer" ∉ O4.Facts.Obfs4.obfs4Conn_Write_fields ∧
     "decoder" ∈ O4.Facts.Obfs4.obfs4Conn_Read_fields ∧
     "encoder" ∈ O4.Facts.Obfs4.obfs4Conn_Write_fields := by decide
+
+/-! ## 9. end to end: handshake read loop ∘ key schedule ∘ data phase
+
+Model `O4/Model/Obfs4EndToEnd.lean` (`clientConnect`, `serverConnect`: `obfs4.go`'s
+`clientHandshake` / `serverHandshake` after the F1 repair, as functions of the list of chunks the
+network delivers); lemmas `O4/Lemmas/Obfs4EndToEnd.lean`, `O4/Lemmas/HandshakeGenuine.lean` (the
+stable re-parser of C02).  The primitives are abstract (`Handshake.Prims` with the explicit
+hypotheses `HmacLen`, `DhComm`), the link crypto of a 72-byte key block is any
+`link : Bytes → Framing.Crypto` with `CryptoOK` — the deployed `Ref.linkCrypto` is one
+(`link_crypto_deployed_ok`), the toy one of the examples another. -/
+
+open O4.Handshake O4.E2E O4.HsGenuine in
+/-- **`client_session_any_chunking`** (`leftover_kept`, composed).  The genuine server's flight
+    `response ‖ seed frame ‖ frames of pkts` (sealed with the server's encoder key block
+    `okm[72:144]` of the server's KEY_SEED; `DhComm`, and `NoEarlyMark` for the response padding as in
+    `C02.any_chunking`) reaches a fresh client in ANY chunking `cs`, and the application reads with
+    ANY buffer sizes `ns`.  Then: `Dial` completes exactly at the first chunk boundary `j` at or
+    beyond `|response|`; its key blocks are `okm[0:72]` / `okm[72:144]` of the *server's* KEY_SEED; the
+    frames that arrived up to that boundary have already been decoded (the receive side is
+    `Settled`: `no_stall` applies from the first `Read`); no `Read` ever reports an error; what
+    the session delivers is an initial part of the payload of `pkts`; and a session that ended
+    blocked has delivered exactly that payload, holds nothing back, and has adopted exactly the
+    seed of the inline seed frame followed by the seeds of the seed packets among `pkts`. -/
+theorem client_session_any_chunking (P : Prims) (Pair : Bytes → Bytes → Prop) (link : Bytes → Crypto)
+    (hlink : ∀ k, CryptoOK (link k)) (hP : HsLemmas.HmacLen P) (hD : DhComm P Pair)
+    (c : Client) (hc : c.cache = none) (G : Genuine P Pair c) (hno : G.NoEarlyMark)
+    (seed : Bytes) (hseed : seed.length = Consts.Obfs4.seedPacketPayloadLength) (pkts : List Bytes)
+    (hp : ∀ p ∈ pkts, p.length ≤ Consts.Framing.maximumFramePayloadLength)
+    (hwf : ∀ p ∈ pkts, ∀ e, parsePacket false p ≠ .bad e)
+    (hn : pkts.length + 1 < ctrLimit - 1) (cs : List Bytes)
+    (hcs : cs.flatten = G.response ++ serverFlight (link (serverEncKey (okm P G.keySeed))) seed pkts)
+    (ns : List Nat) :
+    ∃ j rx,
+      clientConnect P link c cs = .established (clientEncKey (okm P G.keySeed))
+        (clientDecKey (okm P G.keySeed)) rx (cs.drop (j + 1)) ∧
+      j < cs.length ∧ (cs.take j).flatten.length < G.response.length ∧
+      G.response.length ≤ (cs.take (j + 1)).flatten.length ∧
+      Settled (link (clientDecKey (okm P G.keySeed))) false rx ∧
+      let r := session (link (clientDecKey (okm P G.keySeed))) false ns rx ((cs.drop (j + 1)).map NetEv.data)
+      r.2.1 = [] ∧ r.1 <+: pkts.flatMap (payloadOf false) ∧
+        (r.2.2.2 = true → r.1 = pkts.flatMap (payloadOf false) ∧ r.2.2.1.rxBuf = [] ∧
+          r.2.2.1.decoded = [] ∧ r.2.2.1.seeds = seed :: seedsOf (honestOuts false pkts)) := by
+  obtain ⟨j, rx, d, rxf, bl, h1, h2, h3, h4, h5, h6, h7, h8⟩ :=
+    client_e2e P Pair link hlink hP hD c G hno (Or.inl hc) seed hseed pkts hp hwf hn cs hcs ns
+  refine ⟨j, rx, h1, h2, h3, h4, h5, ?_⟩
+  intro r
+  rw [show r = (d, [], rxf, bl) from h6]
+  exact ⟨rfl, (List.prefix_append d rxf.decoded).trans h7, h8⟩
+
+open O4.Handshake O4.E2E O4.HsGenuine in
+/-- … and with enough non-empty `Read`s (one more than there are payload bytes) that session
+    ends blocked, i.e. **every byte the server wrote is delivered**, whatever the chunking. -/
+theorem client_session_delivers_all (P : Prims) (Pair : Bytes → Bytes → Prop) (link : Bytes → Crypto)
+    (hlink : ∀ k, CryptoOK (link k)) (hP : HsLemmas.HmacLen P) (hD : DhComm P Pair)
+    (c : Client) (hc : c.cache = none) (G : Genuine P Pair c) (hno : G.NoEarlyMark)
+    (seed : Bytes) (hseed : seed.length = Consts.Obfs4.seedPacketPayloadLength) (pkts : List Bytes)
+    (hp : ∀ p ∈ pkts, p.length ≤ Consts.Framing.maximumFramePayloadLength)
+    (hwf : ∀ p ∈ pkts, ∀ e, parsePacket false p ≠ .bad e)
+    (hn : pkts.length + 1 < ctrLimit - 1) (cs : List Bytes)
+    (hcs : cs.flatten = G.response ++ serverFlight (link (serverEncKey (okm P G.keySeed))) seed pkts)
+    (ns : List Nat) (hns : ∀ n ∈ ns, 0 < n) (hlen : (pkts.flatMap (payloadOf false)).length < ns.length) :
+    ∃ j rx,
+      clientConnect P link c cs = .established (clientEncKey (okm P G.keySeed))
+        (clientDecKey (okm P G.keySeed)) rx (cs.drop (j + 1)) ∧ j < cs.length ∧
+      let r := session (link (clientDecKey (okm P G.keySeed))) false ns rx ((cs.drop (j + 1)).map NetEv.data)
+      r.2.2.2 = true ∧ r.1 = pkts.flatMap (payloadOf false) ∧ r.2.1 = [] ∧ r.2.2.1.rxBuf = [] ∧
+        r.2.2.1.seeds = seed :: seedsOf (honestOuts false pkts) := by
+  obtain ⟨j, rx, h1, h2, _, _, _, h⟩ :=
+    client_session_any_chunking P Pair link hlink hP hD c hc G hno seed hseed pkts hp hwf hn cs hcs ns
+  refine ⟨j, rx, h1, h2, ?_⟩
+  intro r
+  obtain ⟨g1, g2, g3⟩ : r.2.1 = [] ∧ r.1 <+: pkts.flatMap (payloadOf false) ∧
+      (r.2.2.2 = true → r.1 = pkts.flatMap (payloadOf false) ∧ r.2.2.1.rxBuf = [] ∧
+        r.2.2.1.decoded = [] ∧ r.2.2.1.seeds = seed :: seedsOf (honestOuts false pkts)) := h
+  have hb : r.2.2.2 = true :=
+    session_ends_blocked _ false ns hns _ _ r.1 r.2.2.1 r.2.2.2 (by rw [← g1])
+      (Nat.lt_of_le_of_lt g2.length_le hlen)
+  exact ⟨hb, (g3 hb).1, g1, (g3 hb).2.1, (g3 hb).2.2.2⟩
+
+open O4.Handshake O4.E2E O4.HsGenuine in
+/-- **`no_stall`, composed: everything in ONE segment.**  When the response, the seed frame and
+    all data frames arrive in a single chunk, `Dial` completes on it, nothing is left on the
+    network, and the application's `Read`s obtain every payload byte with **no further network
+    event** (the event list of the session is empty). -/
+theorem client_one_segment_no_stall (P : Prims) (Pair : Bytes → Bytes → Prop) (link : Bytes → Crypto)
+    (hlink : ∀ k, CryptoOK (link k)) (hP : HsLemmas.HmacLen P) (hD : DhComm P Pair)
+    (c : Client) (hc : c.cache = none) (G : Genuine P Pair c) (hno : G.NoEarlyMark)
+    (seed : Bytes) (hseed : seed.length = Consts.Obfs4.seedPacketPayloadLength) (pkts : List Bytes)
+    (hp : ∀ p ∈ pkts, p.length ≤ Consts.Framing.maximumFramePayloadLength)
+    (hwf : ∀ p ∈ pkts, ∀ e, parsePacket false p ≠ .bad e)
+    (hn : pkts.length + 1 < ctrLimit - 1)
+    (ns : List Nat) (hns : ∀ n ∈ ns, 0 < n) (hlen : (pkts.flatMap (payloadOf false)).length < ns.length) :
+    ∃ rx,
+      clientConnect P link c [G.response ++ serverFlight (link (serverEncKey (okm P G.keySeed))) seed pkts]
+        = .established (clientEncKey (okm P G.keySeed)) (clientDecKey (okm P G.keySeed)) rx [] ∧
+      let r := session (link (clientDecKey (okm P G.keySeed))) false ns rx []
+      r.2.2.2 = true ∧ r.1 = pkts.flatMap (payloadOf false) ∧ r.2.1 = [] ∧ r.2.2.1.seeds = seed :: seedsOf (honestOuts false pkts) := by
+  obtain ⟨j, rx, h1, h2, h⟩ :=
+    client_session_delivers_all P Pair link hlink hP hD c hc G hno seed hseed pkts hp hwf hn
+      [G.response ++ serverFlight (link (serverEncKey (okm P G.keySeed))) seed pkts] (by simp) ns hns hlen
+  have hj : j = 0 := by simpa using h2
+  subst hj
+  simp only [Nat.zero_add, List.drop_succ_cons, List.drop_zero, List.map_nil] at h1 h
+  refine ⟨rx, h1, ?_⟩
+  intro r
+  obtain ⟨g1, g2, g3, _, g5⟩ := h
+  exact ⟨g1, g2, g3, g5⟩
+
+/-- non-vacuity (client): the toy genuine pair of C02, seed frame + two packets, delivered
+    byte-wise; `Read`s of sizes 2, 2, 2, 2 obtain `"hi!"` -/
+example :
+    let G := O4.HsGenuine.toyGenuine
+    let w := G.response ++ O4.E2E.serverFlight toyCrypto (List.replicate 24 7) [pktA, pktB]
+    ∃ j rx, O4.E2E.clientConnect HsLemmas.toyPrims (fun _ => toyCrypto) O4.HsGenuine.toyClient (bytewise w)
+        = .established (Handshake.clientEncKey (Handshake.okm HsLemmas.toyPrims G.keySeed))
+            (Handshake.clientDecKey (Handshake.okm HsLemmas.toyPrims G.keySeed)) rx ((bytewise w).drop (j + 1)) ∧
+      j < (bytewise w).length ∧
+      let r := session toyCrypto false [2, 2, 2, 2] rx (((bytewise w).drop (j + 1)).map NetEv.data)
+      r.2.2.2 = true ∧ r.1 = [pktA, pktB].flatMap (payloadOf false) ∧ r.2.1 = [] ∧ r.2.2.1.rxBuf = [] ∧
+        r.2.2.1.seeds = List.replicate 24 7 :: seedsOf (honestOuts false [pktA, pktB]) :=
+  client_session_delivers_all HsLemmas.toyPrims _ (fun _ => toyCrypto) (fun _ => Obfs4.toyCrypto_ok)
+    (fun k m => by simp [HsLemmas.toyPrims, Consts.Ntor.keySeedLength]; omega)
+    O4.HsGenuine.toy_dhComm O4.HsGenuine.toyClient rfl O4.HsGenuine.toyGenuine O4.HsGenuine.toy_noEarlyMark
+    (List.replicate 24 7) (by decide) [pktA, pktB] (by decide) (okPkt_wf false _ (by decide)) (by decide)
+    _ (O4.E2E.singletons_flatten _) [2, 2, 2, 2] (by decide) (by decide +kernel)
+
+open O4.Handshake O4.E2E in
+/-- **`server_session_any_chunking`.**  A genuine client handshake (`GenuineC`: the representative
+    decodes to the client's public key, admissible padding, the client's hour within ±1 of the
+    server's, not a replay, ntor succeeds; `NoEarlyMark`: no proper prefix ends in `M_C ‖ 16 bytes`)
+    reaches a fresh server in ANY chunking `cs1` **that ends with the handshake** — the client cannot
+    send data before it has the keys, and the code accepts only when `M_C ‖ MAC_C` are the last bytes
+    received (`len(resp) == pos+markLength+macLength`; see `server_trailing_bytes` for what it
+    does otherwise) — followed by the client's frames in any chunking `cs2`.  Then `WrapConn`
+    completes at the end of `cs1` with the key blocks of the server's KEY_SEED (decoder = `okm[0:72]`
+    = the client's encoder block), an empty receive buffer, the chunks of `cs2` left on the network,
+    and the server's session delivers, without error, an initial part of the payload of `pkts` —
+    all of it when it ends blocked. -/
+theorem server_session_any_chunking (P : Prims) (link : Bytes → Crypto) (hlink : ∀ k, CryptoOK (link k))
+    (hP : HsLemmas.HmacLen P) (s0 : Server) (hs0 : s0.cache = none) (C : GenuineC P s0)
+    (hno : C.NoEarlyMark) (f : RF.Filter) (H now : Int)
+    (hwin : ∃ off ∈ ([0, -1, 1] : List Int), C.hour = H + off)
+    (hnr : NotReplay P s0 f H now C.blob C.pos)
+    (padS lenSeed : Bytes) (pkts : List Bytes)
+    (hp : ∀ p ∈ pkts, p.length ≤ Consts.Framing.maximumFramePayloadLength)
+    (hwf : ∀ p ∈ pkts, ∀ e, parsePacket true p ≠ .bad e)
+    (hn : pkts.length < ctrLimit - 1) (cs1 cs2 : List Bytes) (hcs1 : cs1.flatten = C.blob)
+    (hcs2 : cs2.flatten = wire (link (clientEncKey (okm P C.keySeed))) pkts) (ns : List Nat) :
+    ∃ s' f' written rest,
+      serverConnect P link s0 f H now padS lenSeed (cs1 ++ cs2) =
+        .established s' f' written (serverEncKey (okm P C.keySeed)) (serverDecKey (okm P C.keySeed))
+          serverStart rest ∧
+      rest.flatten = cs2.flatten ∧
+      let r := session (link (serverDecKey (okm P C.keySeed))) true ns serverStart (rest.map NetEv.data)
+      r.2.1 = [] ∧ r.1 <+: pkts.flatMap (payloadOf true) ∧
+        (r.2.2.2 = true → r.1 = pkts.flatMap (payloadOf true) ∧ r.2.2.1.rxBuf = [] ∧ r.2.2.1.decoded = []) := by
+  obtain ⟨s', f', written, rest, d, rxf, bl, h1, h2, h3, h4, h5⟩ :=
+    server_e2e P link hlink hP s0 hs0 C hno f H now hwin hnr padS lenSeed pkts hp hwf hn cs1 cs2 hcs1 hcs2 ns
+  refine ⟨s', f', written, rest, h1, h2, ?_⟩
+  intro r
+  rw [show r = (d, [], rxf, bl) from h3]
+  exact ⟨rfl, (List.prefix_append d rxf.decoded).trans h4, h5⟩
+
+open O4.Handshake in
+/-- **what the server does with trailing bytes**: a buffer in which `M_C` is not where the tail
+    search looks (in particular `handshake ‖ extra` with `extra ≠ []`, unless 16 bytes of `extra`
+    or of the shifted tail happen to equal the mark) is never accepted — the call answers
+    `ErrMarkNotFoundYet` below 8192 bytes and `ErrInvalidHandshake` from 8192 on, and does not
+    touch the replay filter. -/
+theorem server_trailing_bytes (P : Prims) (s : Server) (f : RF.Filter) (H now : Int) (buf : Bytes)
+    (hlen : Consts.Obfs4.clientMinHandshakeLength ≤ buf.length) (htail : markPos P s buf = none) :
+    parseClientHandshake P s f H now buf =
+      (withCache P s buf, f,
+        .err (if buf.length ≥ Consts.Obfs4.maxHandshakeLength then .invalidHandshake else .markNotFoundYet)) := by
+  rw [parse_unfold, if_neg (by omega), htail]
+  simp only
+  split <;> rfl
+
+open O4.Handshake O4.E2E in
+/-- **`both_directions_keys`**: from one KEY_SEED both ends derive the same two 72-byte key
+    blocks, crossed — the client's encoder link crypto is the server's decoder link crypto and
+    vice versa, as `Framing.Crypto` values of the deployed instantiation — and each satisfies
+    `CryptoOK`, so the data-phase theorems of this file apply in both directions. -/
+theorem both_directions_keys (P : Prims) (hK : HsLemmas.HkdfLen P) (keySeed : Bytes) (rnd : Nat → Nat) :
+    Ref.linkCrypto (clientEncKey (okm P keySeed)) rnd = Ref.linkCrypto (serverDecKey (okm P keySeed)) rnd ∧
+    Ref.linkCrypto (serverEncKey (okm P keySeed)) rnd = Ref.linkCrypto (clientDecKey (okm P keySeed)) rnd ∧
+    CryptoOK (Ref.linkCrypto (clientEncKey (okm P keySeed)) rnd) ∧
+    CryptoOK (Ref.linkCrypto (serverEncKey (okm P keySeed)) rnd) ∧
+    (clientEncKey (okm P keySeed)).length = Consts.Framing.KeyLength ∧
+    (serverEncKey (okm P keySeed)).length = Consts.Framing.KeyLength ∧
+    clientEncKey (okm P keySeed) ++ serverEncKey (okm P keySeed) = okm P keySeed :=
+  ⟨rfl, rfl, refLink_ok _ _, refLink_ok _ _, (okm_split P hK keySeed).1, (okm_split P hK keySeed).2.1,
+    (okm_split P hK keySeed).2.2⟩
+
+/-- the deployed link crypto (XSalsa20-Poly1305 box, SipHash-OFB length mask) is an admissible
+    `link` for the end-to-end theorems -/
+theorem link_crypto_deployed_ok (rnd : Nat → Nat) : ∀ k, CryptoOK (Ref.linkCrypto k rnd) :=
+  fun k => O4.E2E.refLink_ok k rnd
+
+example : HsLemmas.HkdfLen HsLemmas.toyPrims := fun s _ _ n _ => by simp [HsLemmas.toyPrims]
+
+/-! non-vacuity (server): a toy server, a toy genuine client handshake with 80 bytes of padding in
+    one-byte chunks (three proper prefixes are long enough to be searched), then two packets from
+    the client in one-byte chunks; the toy "HMAC" `toyPrimsR` depends on the hour -/
+private def toySrv : Handshake.Server :=
+  { yPriv := [2, 3], yPub := [2, 3], yRepr := [2, 3], idPriv := [5, 7], idPub := [5, 7], nodeID := [9],
+    cache := none, hour := none, auth := none }
+
+private def toyC : O4.E2E.GenuineC O4.E2E.toyPrimsR toySrv where
+  xRepr := List.replicate 32 2
+  xPub := List.replicate 32 2
+  pad := List.replicate 80 1
+  hour := 480001
+  repr_len := rfl
+  repr_x := rfl
+  pad_lo := by decide
+  pad_hi := by decide
+  ntor_ok := by decide
+
+private theorem toyC_noEarly : toyC.NoEarlyMark := by
+  intro L h1 h2
+  have hl : toyC.blob.length = 144 := by decide +kernel
+  have h1' : 141 ≤ L := h1
+  have : L = 141 ∨ L = 142 ∨ L = 143 := by omega
+  rcases this with rfl | rfl | rfl <;> decide +kernel
+
+example :
+    let w := wire toyCrypto [pktA, pktB]
+    ∃ s' f' written rest,
+      O4.E2E.serverConnect O4.E2E.toyPrimsR (fun _ => toyCrypto) toySrv Obfs4Server.newFilter 480000 12345 [8, 8]
+          (List.replicate 24 7) (bytewise toyC.blob ++ bytewise w) =
+        .established s' f' written (Handshake.serverEncKey (Handshake.okm O4.E2E.toyPrimsR toyC.keySeed))
+          (Handshake.serverDecKey (Handshake.okm O4.E2E.toyPrimsR toyC.keySeed)) serverStart rest ∧
+      rest.flatten = (bytewise w).flatten ∧
+      let r := session toyCrypto true [5, 5] serverStart (rest.map NetEv.data)
+      r.2.1 = [] ∧ r.1 <+: [pktA, pktB].flatMap (payloadOf true) ∧
+        (r.2.2.2 = true → r.1 = [pktA, pktB].flatMap (payloadOf true) ∧ r.2.2.1.rxBuf = [] ∧ r.2.2.1.decoded = []) :=
+  server_session_any_chunking O4.E2E.toyPrimsR (fun _ => toyCrypto) (fun _ => Obfs4.toyCrypto_ok)
+    O4.E2E.toyPrimsR_hmacLen
+    toySrv rfl toyC toyC_noEarly Obfs4Server.newFilter 480000 12345
+    ⟨1, by decide, rfl⟩ (by unfold O4.Handshake.NotReplay; exact O4.E2E.ne_error_of_isOk (by decide +kernel))
+    [8, 8] (List.replicate 24 7) [pktA, pktB] (by decide) (okPkt_wf true _ (by decide)) (by decide)
+    (bytewise toyC.blob) (bytewise (wire toyCrypto [pktA, pktB])) (O4.E2E.singletons_flatten _)
+    (O4.E2E.singletons_flatten _) [5, 5]
+
+/-- the hypothesis of `server_trailing_bytes` on `handshake ‖ 3 bytes` -/
+example : O4.Handshake.markPos O4.E2E.toyPrimsR toySrv (toyC.blob ++ [1, 2, 3]) = none := by decide +kernel
 
 theorem toyCrypto_ok : CryptoOK toyCrypto := Obfs4.toyCrypto_ok
 
